@@ -915,6 +915,238 @@ example : predictMultiSrc [3, 5, 7, 9] [1/4, 1/2, 1/2, 0] = some 5 := by decide 
 theorem src_predict_pipeline : AdvScheduleSrc.continuousRule = .identity ∧
     AdvScheduleSrc.predictStages = [.rawPredict, .predictorFunction, .inverseTransform] := by decide
 
+/-! ### the guard of the callback block and the check of the callbacks' results (lifted) -/
+
+/-- the lifted guard is `if self.callbacks_:`, a truthy non-bool result raises RuntimeError, `partial_fit` calls no callback -/
+theorem lifted_cb_guard : AdvScheduleSrc.cbGuard = .truthy ∧
+    AdvScheduleSrc.cbResultCheck = .truthyNonBool .runtimeError ∧ AdvScheduleSrc.partialFitCallbackCalls = 0 := by decide
+
+/-- the truth values of what the callbacks return -/
+def truthyOf (cbs : List (Int → CbRes)) : List (Int → Bool) := cbs.map (fun cb k => (cb k).truthy)
+
+/-- every result of every callback passes the check -/
+def AllPass (chk : ResultCheck) (cbs : List (Int → CbRes)) : Prop := ∀ cb ∈ cbs, ∀ k, checkRes chk (cb k) = none
+
+theorem runCbsV_pass (acc : Acc) (chk : ResultCheck) (k : Int) (cbs : List (Int → CbRes)) (h : AllPass chk cbs)
+    (i : Nat) (stop : Bool) (calls : List (Nat × Int)) :
+    runCbsV acc chk k cbs i stop calls =
+      ((runCbs acc k (truthyOf cbs) i stop calls).1, (runCbs acc k (truthyOf cbs) i stop calls).2, none) := by
+  induction cbs generalizing i stop calls with
+  | nil => rfl
+  | cons cb r ih =>
+    have h1 : checkRes chk (cb k) = none := h cb (by simp) k
+    have h2 : AllPass chk r := fun c hc => h c (by simp [hc])
+    simp only [runCbsV, h1, truthyOf, List.map_cons, runCbs]
+    exact ih h2 _ _ _
+
+theorem execEvV_pass {σ : Type} (cfg : Cfg) (chk : ResultCheck) (mi : Int) (cbs : List (Int → CbRes))
+    (ts : σ → Nat → Nat → σ) (lo hi : Nat) (h : AllPass chk cbs) (s : St σ) (ev : Ev) :
+    execEvV cfg .truthy chk mi cbs ts lo hi ⟨s, none⟩ ev = ⟨execEv cfg mi (truthyOf cbs) ts lo hi s ev, none⟩ := by
+  cases ev with
+  | train => rfl
+  | incIter => rfl
+  | checkMax => rfl
+  | callbacks =>
+    have he : (truthyOf cbs).isEmpty = cbs.isEmpty := by cases cbs <;> rfl
+    simp only [execEvV, execEv, he]
+    cases hc : cbs.isEmpty with
+    | true => simp
+    | false => simp [cbBlockV, runCbsV_pass _ _ _ _ h]
+
+theorem foldl_sim {α β γ : Type} (f : α → γ → α) (f' : β → γ → β) (emb : α → β)
+    (h : ∀ a c, f' (emb a) c = emb (f a c)) (l : List γ) (a : α) :
+    l.foldl f' (emb a) = emb (l.foldl f a) := by
+  induction l generalizing a with
+  | nil => rfl
+  | cons c r ih => simp only [List.foldl_cons, h, ih]
+
+theorem bodyStepV_pass {σ : Type} (cfg : Cfg) (chk : ResultCheck) (mi : Int) (cbs : List (Int → CbRes))
+    (ts : σ → Nat → Nat → σ) (b n : Int) (h : AllPass chk cbs) (s : St σ) (batch : Nat) :
+    bodyStepV cfg .truthy chk mi cbs ts b n ⟨s, none⟩ batch = ⟨bodyStep cfg mi (truthyOf cbs) ts b n s batch, none⟩ := by
+  unfold bodyStepV bodyStep
+  by_cases hh : (s.returned || s.broke) = true
+  · simp [haltedV, hh]
+  · have hv : haltedV (⟨s, none⟩ : StV σ) = false := by simpa [haltedV] using hh
+    rw [if_neg hh, if_neg (by simp [hv])]
+    exact foldl_sim _ _ (fun a => (⟨a, none⟩ : StV σ)) (by
+      intro a ev
+      by_cases ha : (a.returned || a.broke) = true
+      · simp [haltedV, ha]
+      · have hv' : haltedV (⟨a, none⟩ : StV σ) = false := by simpa [haltedV] using ha
+        rw [if_neg ha, if_neg (by simp [hv'])]
+        exact execEvV_pass cfg chk mi cbs ts _ _ h a ev) _ _
+
+theorem epochStepV_pass {σ : Type} (cfg : Cfg) (chk : ResultCheck) (mi : Int) (cbs : List (Int → CbRes))
+    (ts : σ → Nat → Nat → σ) (b n bt : Int) (h : AllPass chk cbs) (s : St σ) (ep : Nat) :
+    epochStepV cfg .truthy chk mi cbs ts b n bt ⟨s, none⟩ ep = ⟨epochStep cfg mi (truthyOf cbs) ts b n bt s ep, none⟩ := by
+  unfold epochStepV epochStep
+  by_cases hh : s.returned = true
+  · simp [hh]
+  · have this : List.foldl (bodyStepV cfg .truthy chk mi cbs ts b n) (⟨⟨s.state, s.nIter, false, false, s.calls⟩, none⟩ : StV σ)
+        (List.range bt.toNat) =
+        ⟨List.foldl (bodyStep cfg mi (truthyOf cbs) ts b n) ⟨s.state, s.nIter, false, false, s.calls⟩ (List.range bt.toNat), none⟩ :=
+      foldl_sim (bodyStep cfg mi (truthyOf cbs) ts b n) (bodyStepV cfg .truthy chk mi cbs ts b n)
+        (fun a => (⟨a, none⟩ : StV σ)) (bodyStepV_pass cfg chk mi cbs ts b n h) (List.range bt.toNat) _
+    simp [hh, this]
+
+/-- callbacks whose results all pass the lifted check (in particular: all return a bool or a falsy value) behave in the
+    interpreter with guard and check exactly as their truth values in the interpreter of `src_fit_eq_fold_partial_fit`,
+    and nothing is raised: every `src_*` theorem above is a theorem about `fitVSrc` for such callbacks -/
+theorem fitV_pass {σ : Type} (cfg : Cfg) (chk : ResultCheck) (n : Nat) (bs ep mi : Int) (cbs : List (Int → CbRes))
+    (ts : σ → Nat → Nat → σ) (s0 : σ) (h : AllPass chk cbs) :
+    fitV cfg .truthy chk n bs ep mi cbs ts s0 =
+      (SchedL.fit cfg n bs ep mi (truthyOf cbs) ts s0).map (fun s => (⟨s, none⟩ : StV σ)) := by
+  unfold fitV SchedL.fit
+  by_cases hr : cfg.rejects ep mi = true
+  · simp [hr]
+  · simp only [hr, Bool.false_eq_true, if_false, Option.map_some]
+    congr 1
+    exact foldl_sim _ _ (fun a => (⟨a, none⟩ : StV σ)) (epochStepV_pass cfg chk mi cbs ts _ _ _ h) _ _
+
+theorem src_fitV_passing_callbacks {σ : Type} (n : Nat) (bs ep mi : Int) (cbs : List (Int → CbRes))
+    (ts : σ → Nat → Nat → σ) (s0 : σ) (h : AllPass AdvScheduleSrc.cbResultCheck cbs) :
+    fitVSrc n bs ep mi cbs ts s0 = (fitSrc n bs ep mi (truthyOf cbs) ts s0).map (fun s => (⟨s, none⟩ : StV σ)) := by
+  unfold fitVSrc fitSrc
+  rw [lifted_cb_guard.1]
+  exact fitV_pass _ _ n bs ep mi cbs ts s0 h
+
+theorem callsOf_zero (steps : List Step) : callsOf 0 steps = [] := by
+  simp [callsOf]
+
+/-- no callbacks (`callbacks_ = None`): under the lifted guard the block is skipped — nothing is called, nothing is
+    raised, and the run makes the full planned number of steps -/
+theorem src_no_callbacks_no_calls {σ : Type} (n e : Nat) (bs mi : Option Nat) (ts : σ → Nat → Nat → σ) (s0 : σ)
+    (hn : 0 < n) (hbs : ∀ k, bs = some k → 0 < k) (hmi : ∀ m, mi = some m → 0 < m) :
+    ∃ r, fitVSrc n (enc bs) (e : Int) (enc mi) [] ts s0 = some r ∧ r.raised = none ∧ r.st.calls = [] ∧
+      r.st.nIter = (plannedSteps n e bs mi : Int) := by
+  rw [src_fitV_passing_callbacks n _ _ _ [] ts s0 (by intro cb hcb; cases hcb)]
+  obtain ⟨st, h1, hN⟩ := src_steps_count n e bs mi [] ts s0 hn hbs hmi (by intro k; simp [anyStop])
+  have h := src_fit_eq_fold_partial_fit n bs (some e) mi [] ts s0 hn hbs
+  cases hs : schedule n bs (some e) mi (!([] : List (Int → Bool)).isEmpty) (anyStop []) with
+  | none => simp [schedule, epochsOf] at hs
+  | some steps =>
+    rw [hs] at h
+    obtain ⟨st', h1', _, _, h4⟩ := h
+    have hst : st = st' := by
+      have : (enc (some e)) = (e : Int) := rfl
+      rw [this] at h1'
+      exact Option.some.inj (h1.symm.trans h1')
+    refine ⟨⟨st, none⟩, ?_, rfl, ?_, hN⟩
+    · simp [truthyOf, h1]
+    · show st.calls = []
+      rw [hst, h4]
+      exact callsOf_zero steps
+
+/-- a falsy result of any type (None, 0, "") is accepted and counts as False -/
+theorem src_falsy_result_accepted (b : Bool) : checkRes AdvScheduleSrc.cbResultCheck ⟨false, b⟩ = none := by
+  cases b <;> rfl
+
+/-- a bool result is accepted -/
+theorem src_bool_result_accepted (t : Bool) : checkRes AdvScheduleSrc.cbResultCheck ⟨t, true⟩ = none := by
+  cases t <;> rfl
+
+/-- a callback returning a TRUTHY value that is not a bool: the callback loop raises RuntimeError right after that call;
+    the callbacks before it have been called (with the same step), the ones after it are not, and the stop flag is not
+    acted upon -/
+theorem src_nonbool_callback_rejected (k : Int) (pre post : List (Int → CbRes)) (cb : Int → CbRes) (i : Nat) (stop : Bool)
+    (calls : List (Nat × Int)) (hpre : ∀ c ∈ pre, (c k).truthy = true → (c k).isBool = true)
+    (ht : (cb k).truthy = true) (hb : (cb k).isBool = false) :
+    runCbsV AdvScheduleSrc.stopAcc AdvScheduleSrc.cbResultCheck k (pre ++ cb :: post) i stop calls =
+      (pre.foldl (fun s c => s || (c k).truthy) stop,
+       calls ++ (List.range' i (pre.length + 1)).map (fun j => (j, k)), some .runtimeError) := by
+  induction pre generalizing i stop calls with
+  | nil =>
+    simp [runCbsV, checkRes, AdvScheduleSrc.cbResultCheck, ht, hb]
+  | cons c r ih =>
+    have hc : checkRes AdvScheduleSrc.cbResultCheck (c k) = none := by
+      have := hpre c (by simp)
+      cases h1 : (c k).truthy <;> cases h2 : (c k).isBool <;> simp_all [checkRes, AdvScheduleSrc.cbResultCheck]
+    have ih' := ih (i + 1) (accF AdvScheduleSrc.stopAcc stop (c k).truthy) (calls ++ [(i, k)])
+      (fun c' hc' => hpre c' (by simp [hc']))
+    simp only [List.cons_append, runCbsV, hc, ih', List.foldl_cons, List.length_cons]
+    rw [List.range'_succ (n := r.length + 1)]
+    simp [accF, AdvScheduleSrc.stopAcc, List.append_assoc]
+
+/-- once an exception has been raised nothing more happens: the remaining batches and epochs leave the state alone -/
+theorem raised_is_final {σ : Type} (cfg : Cfg) (g : CbGuard) (chk : ResultCheck) (mi : Int) (cbs : List (Int → CbRes))
+    (ts : σ → Nat → Nat → σ) (b n bt : Int) (s : StV σ) (hr : s.raised.isSome = true) (j : Nat) :
+    bodyStepV cfg g chk mi cbs ts b n s j = s ∧ epochStepV cfg g chk mi cbs ts b n bt s j = s := by
+  constructor
+  · simp [bodyStepV, haltedV, hr]
+  · simp [epochStepV, hr]
+
+/-! ### the range checks of `__setup` on batch_size / epochs / max_iter (lifted) -/
+
+/-- exactly the values that are neither positive nor the sentinel -1 are rejected (0, -2, -3, ..), with ValueError -/
+theorem src_param_rejected_iff (v : Int) : AdvScheduleSrc.paramRejected v = true ↔ (v ≤ 0 ∧ v ≠ -1) := by
+  simp only [AdvScheduleSrc.paramRejected, Bool.or_eq_true, Bool.and_eq_true, decide_eq_true_eq, bne_iff_ne, ne_eq]
+  omega
+
+theorem lifted_param_exc : AdvScheduleSrc.paramRejectedExc = .valueError := by decide
+
+/-- the accepted values are exactly the ones the theorems above are stated for: `enc o` with `o` unset or positive
+    (the side conditions `hbs`, `hmi` are the lifted domain, not an extra assumption) -/
+theorem src_param_accepted_iff_enc (v : Int) :
+    AdvScheduleSrc.paramRejected v = false ↔ ∃ o : Option Nat, v = enc o ∧ ∀ k, o = some k → 0 < k := by
+  rw [← Bool.not_eq_true, src_param_rejected_iff]
+  constructor
+  · intro h
+    by_cases hv : v = -1
+    · exact ⟨none, hv, by intro k hk; cases hk⟩
+    · refine ⟨some v.toNat, ?_, ?_⟩
+      · show v = ((v.toNat : Nat) : Int)
+        omega
+      · intro k hk
+        cases hk
+        omega
+  · rintro ⟨o, rfl, ho⟩
+    cases o with
+    | none => simp [enc]
+    | some k =>
+      have := ho k rfl
+      simp only [enc]
+      omega
+
+/-- a non-positive batch_size / epochs / max_iter other than -1: `fit` fails in the set-up with ValueError, before the
+    both-unset rejection and before any training step; otherwise the set-up passes -/
+theorem src_nonpositive_params_rejected {σ : Type} (n : Nat) (bs ep mi : Int) (cbs : List (Int → CbRes))
+    (ts : σ → Nat → Nat → σ) (s0 : σ) :
+    (((bs ≤ 0 ∧ bs ≠ -1) ∨ (ep ≤ 0 ∧ ep ≠ -1) ∨ (mi ≤ 0 ∧ mi ≠ -1)) →
+      fitChecked n bs ep mi cbs ts s0 = .setupError .valueError) ∧
+    (¬((bs ≤ 0 ∧ bs ≠ -1) ∨ (ep ≤ 0 ∧ ep ≠ -1) ∨ (mi ≤ 0 ∧ mi ≠ -1)) →
+      fitChecked n bs ep mi cbs ts s0 = match fitVSrc n bs ep mi cbs ts s0 with | none => .rejected | some r => .done r) := by
+  have hb := src_param_rejected_iff bs
+  have he := src_param_rejected_iff ep
+  have hm := src_param_rejected_iff mi
+  constructor
+  · intro h
+    have : (AdvScheduleSrc.paramRejected bs || AdvScheduleSrc.paramRejected ep || AdvScheduleSrc.paramRejected mi) = true := by
+      simp only [Bool.or_eq_true, hb, he, hm]
+      tauto
+    simp only [fitChecked, this, if_true, lifted_param_exc]
+  · intro h
+    have : (AdvScheduleSrc.paramRejected bs || AdvScheduleSrc.paramRejected ep || AdvScheduleSrc.paramRejected mi) = false := by
+      rw [← Bool.not_eq_true]
+      simp only [Bool.or_eq_true, hb, he, hm]
+      tauto
+    unfold fitChecked
+    rw [this]
+    rfl
+
+example : (fitChecked 7 0 2 (-1) [] (fun (l : List (Nat × Nat)) lo hi => l ++ [(lo, hi)]) [] matches .setupError .valueError) = true := by
+  decide +kernel
+example : (fitChecked 7 3 (-1) (-1) [] (fun (l : List (Nat × Nat)) lo hi => l ++ [(lo, hi)]) [] matches .rejected) = true := by
+  decide +kernel
+
+-- two callbacks, the first returns a truthy non-bool (e.g. `1`) at step 2: RuntimeError after 2 steps, the second
+-- callback is not called at step 2
+example : (fitVSrc 7 3 2 (-1) [fun k => if k == 2 then ⟨true, false⟩ else ⟨false, false⟩, fun _ => ⟨false, true⟩]
+    (fun (l : List (Nat × Nat)) lo hi => l ++ [(lo, hi)]) []).map (fun r => (r.st.state, r.st.nIter, r.st.calls, r.raised)) =
+    some ([(0, 3), (3, 6)], 2, [(0, 1), (1, 1), (0, 2)], some .runtimeError) := by decide +kernel
+example : (fitVSrc 7 3 1 (-1) [] (fun (l : List (Nat × Nat)) lo hi => l ++ [(lo, hi)]) []).map
+    (fun r => (r.st.state, r.st.nIter, r.st.calls, r.raised)) = some ([(0, 3), (3, 6), (6, 7)], 3, [], none) := by
+  decide +kernel
+
 end Lifted
 
 /-! ### non-vacuity (n = 7, batch_size = 3, epochs = 2, max_iter = 5) -/
